@@ -291,6 +291,85 @@ theorem outcomeC_same (c0 : RQJ.Config) (s : SysC N) (i : Fin N) (m : Msg1 N) (h
             exact this
           simpa using this
 
+/-- a proposal message: one `propose` step per payload -/
+theorem outcomeC_props (c0 : RQJ.Config) (i : Fin N) : ∀ (vs : List Nat) (s : SysC N), (s.l1.nodes i).role = .leader →
+    OutcomeC c0 s i ⟨{ (s.l1.nodes i) with log := (s.l1.nodes i).log ++
+        (gateSeq (s.applied i) (s.pend i) (s.l1.nodes i).log.length vs).1.map fun v => ⟨(s.l1.nodes i).term, v⟩ },
+      s.applied i, (gateSeq (s.applied i) (s.pend i) (s.l1.nodes i).log.length vs).2⟩ [] := by
+  intro vs
+  induction vs with
+  | nil => intro s _; exact OutcomeC.stay' (by simp [gateSeq, SysC.node])
+  | cons v vs ih =>
+    intro s hl
+    have st : OutcomeC c0 s i ⟨proposeN (s.l1.nodes i) (gateB (s.applied i) (s.pend i) v), s.applied i,
+        if isConfData (gateB (s.applied i) (s.pend i) v) then (s.l1.nodes i).log.length + 1 else s.pend i⟩ [] :=
+      outcomeC_of_step (StepC.propose s i v hl) (by simp [cProp, SysC.put, updN_self]) (fun _ h => h) (fun _ h => by cases h)
+    refine OutcomeC.chain0 st fun net1 _ => ?_
+    have := ih (s.put i ⟨proposeN (s.l1.nodes i) (gateB (s.applied i) (s.pend i) v), s.applied i,
+        if isConfData (gateB (s.applied i) (s.pend i) v) then (s.l1.nodes i).log.length + 1 else s.pend i⟩ net1)
+      (by rw [put_l1_node]; simpa [proposeN] using hl)
+    rw [put_l1_node, put_applied, put_pend] at this
+    simpa [proposeN, gateSeq_cons, List.append_assoc] using this
+
+/-- the `Match` of ids without a `Progress` forgotten -/
+def forgetN (c : RQJ.Config) (n : Node1 N) : Node1 N := { n with matchI := fun j => if hasProg c j then n.matchI j else 0 }
+
+theorem applyOneC_eq (c0 : RQJ.Config) (i : Fin N) (n : Node1 N) (a p : Nat) :
+    applyOneC c0 i ⟨n, a, p⟩ =
+      if confAt n.log (a + 1) = true then
+        (if n.role = .leader ∧ hasProg (cfgAt c0 n.log (a + 1)) i = true ∧ RQJ.isLearnerPr (cfgAt c0 n.log (a + 1)) (nid i) = false
+         then ⟨maybeCommitC (cfgAt c0 n.log (a + 1)) (forgetN (cfgAt c0 n.log (a + 1)) n), a + 1, p⟩
+         else ⟨forgetN (cfgAt c0 n.log (a + 1)) n, a + 1, p⟩)
+      else ⟨n, a + 1, p⟩ := rfl
+
+/-- one more entry applied: `applyOne`, then (conf change only) `forget` and, on a leader that keeps its `Progress`, `maybeCommit` under the new configuration -/
+theorem outcomeC_applyOne (c0 : RQJ.Config) (s : SysC N) (i : Fin N) (h : s.applied i < (s.l1.nodes i).commit) :
+    OutcomeC c0 s i (applyOneC c0 i ⟨s.l1.nodes i, s.applied i, s.pend i⟩) [] := by
+  have st1 : OutcomeC c0 s i ⟨s.l1.nodes i, s.applied i + 1, s.pend i⟩ [] :=
+    outcomeC_of_step (StepC.applyOne s i h) (by
+      cases s with
+      | mk l1 ap pd => cases l1 with | mk nodes net => simp [SysC.put, upd1_self, updN_self]) (fun _ h => h) (fun _ h => by cases h)
+  rw [applyOneC_eq]
+  by_cases hconf : confAt (s.l1.nodes i).log (s.applied i + 1) = true
+  · rw [if_pos hconf]
+    have st2 : OutcomeC c0 s i ⟨forgetN (cfgAt c0 (s.l1.nodes i).log (s.applied i + 1)) (s.l1.nodes i), s.applied i + 1, s.pend i⟩ [] := by
+      refine OutcomeC.chain0 st1 fun net1 _ => ?_
+      exact outcomeC_of_step (net' := net1)
+        (StepC.forget (s.put i ⟨s.l1.nodes i, s.applied i + 1, s.pend i⟩ net1) i
+          (fun j => if hasProg (cfgAt c0 (s.l1.nodes i).log (s.applied i + 1)) j then (s.l1.nodes i).matchI j else 0)
+          (fun j => by
+            rw [put_l1_node]
+            by_cases hp : hasProg (cfgAt c0 (s.l1.nodes i).log (s.applied i + 1)) j = true
+            · left; simp [hp]
+            · right; simp [hp]))
+        (by simp [SysC.setNode, SysC.put, upd1_upd1, updN_updN, forgetN]) (fun _ h => h) (fun _ h => by cases h)
+    by_cases hl : (s.l1.nodes i).role = Role.leader ∧ hasProg (cfgAt c0 (s.l1.nodes i).log (s.applied i + 1)) i = true ∧
+        RQJ.isLearnerPr (cfgAt c0 (s.l1.nodes i).log (s.applied i + 1)) (nid i) = false
+    · rw [if_pos hl]
+      refine OutcomeC.chain0 st2 fun net1 _ => ?_
+      have := outcomeC_maybeCommit c0 (s.put i ⟨forgetN (cfgAt c0 (s.l1.nodes i).log (s.applied i + 1)) (s.l1.nodes i), s.applied i + 1, s.pend i⟩ net1) i
+        (by rw [put_l1_node]; exact hl.1)
+      rw [put_l1_node, put_applied, put_pend, cfg_put] at this
+      exact this
+    · rw [if_neg hl]; exact st2
+  · rw [if_neg hconf]; exact st1
+
+theorem outcomeC_applyFold (c0 : RQJ.Config) (i : Fin N) : ∀ (l : List Nat) (s : SysC N),
+    OutcomeC c0 s i (l.foldl (fun y _ => if y.applied < y.n.commit then applyOneC c0 i y else y) ⟨s.l1.nodes i, s.applied i, s.pend i⟩) [] := by
+  intro l
+  induction l with
+  | nil => intro s; exact OutcomeC.stay' rfl
+  | cons _ l ih =>
+    intro s
+    simp only [List.foldl_cons]
+    by_cases hlt : s.applied i < (s.l1.nodes i).commit
+    · rw [if_pos hlt]
+      refine OutcomeC.chain0 (outcomeC_applyOne c0 s i hlt) fun net1 _ => ?_
+      have := ih (s.put i (applyOneC c0 i ⟨s.l1.nodes i, s.applied i, s.pend i⟩) net1)
+      rw [put_l1_node, put_applied, put_pend] at this
+      exact this
+    · rw [if_neg hlt]; exact ih s
+
 /-- when an input may be given to node `i` of `s` -/
 def enabledC (c0 : RQJ.Config) (s : SysC N) (i : Fin N) : InputC N → Prop
 | .recv m => s.l1.net m ∧ m.dst = i ∧ snapOK c0 i ⟨s.l1.nodes i, s.applied i, s.pend i⟩ m
@@ -301,13 +380,17 @@ theorem snapOK_bump {c0 : RQJ.Config} {i : Fin N} {n : Node1 N} {a p p' t : Nat}
     (h : snapOK c0 i ⟨n, a, p⟩ m) : snapOK c0 i ⟨bump n t l, a, p'⟩ m := by
   cases m <;> first | trivial | exact h
 
-/-- **handler ⊆ L1C, the inputs proved so far**: `hup`, `selfAck`, `beat`, `restart a`, `recv m` (every message kind, any term) -/
-theorem handleC_outcome_partial (c0 : RQJ.Config) (s : SysC N) (i : Fin N) (inp : InputC N) (hen : enabledC c0 s i inp)
-    (happ : s.applied i ≤ (s.l1.nodes i).commit) (hkind : ∀ vs, inp ≠ .prop vs) (hkind' : ∀ k, inp ≠ .applyTo k) :
+/-- **handler ⊆ L1C**: every call of `handleC` is a finite chain of L1C steps ending in the handler's node and having sent its responses -/
+theorem handleC_outcome (c0 : RQJ.Config) (s : SysC N) (i : Fin N) (inp : InputC N) (hen : enabledC c0 s i inp)
+    (happ : s.applied i ≤ (s.l1.nodes i).commit) :
     OutcomeC c0 s i (handleC c0 i ⟨s.l1.nodes i, s.applied i, s.pend i⟩ inp).1 (handleC c0 i ⟨s.l1.nodes i, s.applied i, s.pend i⟩ inp).2 := by
   cases inp with
-  | prop vs => exact absurd rfl (hkind vs)
-  | applyTo k => exact absurd rfl (hkind' k)
+  | prop vs =>
+    simp only [handleC]
+    by_cases h : (s.l1.nodes i).role = Role.leader ∧ hasProg (cfgOf c0 ⟨s.l1.nodes i, s.applied i, s.pend i⟩) i = true
+    · rw [if_pos h]; exact outcomeC_props c0 i vs s h.1
+    · rw [if_neg h]; exact OutcomeC.stay' rfl
+  | applyTo k => exact outcomeC_applyFold c0 i _ s
   | beat => exact OutcomeC.stay' rfl
   | restart a =>
     exact outcomeC_of_step (StepC.restart s i a hen) (by simp [handleC, cRestart, SysC.put]) (fun _ h => h) (fun _ h => by cases h)
@@ -407,5 +490,5 @@ theorem handleC_outcome_partial (c0 : RQJ.Config) (s : SysC N) (i : Fin N) (inp 
           exact outcomeC_same c0 s i m hm hd (by omega) happ hok
 
 #print axioms outcomeC_same
-#print axioms handleC_outcome_partial
+#print axioms handleC_outcome
 end RHC
